@@ -122,14 +122,14 @@ def oracle(x, y, thresh, k, tail, paired, out, trace):
         both = np.hstack((xm, ym))
         for u, e in enumerate(draws):
             if paired:
-                if e[0] != 'rand':
+                if e[0] != 'rand' or np.asarray(e[3]).size != nx:
                     return v, None
                 sgn = np.sign(0.5 - np.asarray(e[3], dtype=float).reshape(-1))
                 d = both * np.hstack((sgn, sgn))[None, :]
                 tp = tstats(d[:, :nx], d[:, nx:], tail, True)
             else:
-                if e[0] != 'permutation':
-                    return v, None
+                if e[0] != 'permutation' or e[1] != nx + ny:
+                    return v, None  # not a relabelling in the form this oracle understands: null[u] is not judged
                 d = both[:, np.asarray(e[3], dtype=int)]
                 tp = tstats(d[:, :nx], d[:, nx:], tail, False)
             if near(tp, thresh):
